@@ -45,10 +45,11 @@ VARIABLES S, D, Fl, A, X, F,      \* node ids: started, completed, failed, activ
           calls,                  \* <<call node, macro node>>: macro calls in progress
           defsEver,               \* macro nodes whose definition was registered in this run
           tainted,                \* a live edit lost interpretation state: the rest of this run is not a behaviour of the design
+          seen,                   \* witnesses: antecedents of clauses that held at least once (vacuity guard)
           tid, l, viols, done
 mvars == <<S, D, Fl, A, X, F, L, E, R, RegEver, began, inited, openCmd, defs, running, justEnded, mustRearm, startAt,
            injPending, Dt, ms, tick, inTick, ranTick, idle, edits, pendAct, p, tainted, stale, calls, defsEver>>
-tvars == <<mvars, tid, l, viols, done>>
+tvars == <<mvars, seen, tid, l, viols, done>>
 T == Traces[tid].ev
 SetOfSeq(q) == {q[i] : i \in DOMAIN q}
 Ids(set) == {x[1] : x \in set}
@@ -281,6 +282,34 @@ Shared(e) == \/ e.macro # "" /\ Overlapped(e.macro)
 SharedClause == << <<"C41.overlapping-calls-share-one-invocation", FALSE>> >>
 
 (* ---- the step -------------------------------------------------------------------------------------------------------------- *)
+(* which antecedents hold at this event (evaluated in the state before the event); vacuity guard, see TraceLib *)
+Witness(e) ==
+    CASE e.e = "fl" /\ e.phase = "run" /\ e.known ->
+            (IF e.f = "started" /\ e.on /\ ~e.same THEN {"line-started:" \o e.cls} ELSE {}) \cup
+            (IF e.f = "started" /\ e.on /\ ~e.same /\ e.thr THEN {"thresholded-line-started"} ELSE {}) \cup
+            (IF e.f = "started" /\ e.on /\ ~e.same /\ e.prevWaitMs >= 0 THEN {"line-after-wait-started"} ELSE {}) \cup
+            (IF e.f = "started" /\ e.on /\ ~e.same /\ e.pcls \in CondCls THEN {"watch-or-alarm-body-line-started"} ELSE {}) \cup
+            (IF e.f = "started" /\ e.on /\ ~e.same /\ e.inj THEN {"injected-line-started"} ELSE {}) \cup
+            (IF e.f = "started" /\ e.on /\ ~e.same /\ edits > 0 THEN {"line-started-after-live-edit"} ELSE {}) \cup
+            (IF e.f = "started" /\ ~e.on /\ ~e.same THEN {"line-reset:" \o (IF e.rep THEN "in-repeated-body" ELSE "elsewhere")} ELSE {}) \cup
+            (IF e.f = "completed" /\ e.on /\ ~e.same THEN {"line-completed:" \o e.cls} ELSE {}) \cup
+            (IF e.f = "completed" /\ e.on /\ ~e.same /\ e.cls = "InjectedNode" /\ e.kids # <<>> THEN {"injected-code-completed"} ELSE {}) \cup
+            (IF e.f = "activated" /\ e.on THEN {"activated:" \o e.cls} ELSE {}) \cup
+            (IF e.f = "lock_acquired" /\ e.on THEN {"block-lock-taken-at-depth-" \o ToString(e.depth)} ELSE {}) \cup
+            (IF e.f = "block_ended" /\ e.on THEN {"block-ended"} ELSE {}) \cup
+            (IF e.f = "block_ended" /\ e.on /\ \E r \in R : e.n \in r[2] THEN {"block-ended-with-pending-interrupt"} ELSE {}) \cup
+            (IF e.f = "run_started_count" THEN {"macro-invocation"} ELSE {})
+      [] e.e = "edit" -> {"edit-" \o e.op \o "-" \o (IF e.res = "rejected" THEN "rejected" ELSE "accepted")} \cup
+                         (IF e.addedInMacro THEN {"edit-extends-started-macro"} ELSE {})
+      [] e.e = "inject" -> {"inject-" \o (IF e.res = "ok" THEN "accepted" ELSE "rejected")}
+      [] e.e = "ta" -> {"condition-evaluated-" \o e.condNow} \cup (IF e.forced THEN {"forced-condition"} ELSE {})
+      [] e.e = "thr" -> (IF e.forced THEN {"forced-threshold"} ELSE {})
+      [] e.e = "te" -> (IF mustRearm # {} THEN {"alarm-run-completed"} ELSE {}) \cup
+                       (IF injPending # {} THEN {"tick-with-pending-injection"} ELSE {}) \cup
+                       (IF stale # {} THEN {"orphaned-interrupt-present"} ELSE {}) \cup
+                       (IF tainted THEN {"tainted-by-live-edit"} ELSE {})
+      [] OTHER -> {}
+
 Apply(s) ==
     /\ S' = s.S /\ D' = s.D /\ Fl' = s.Fl /\ A' = s.A /\ X' = s.X /\ F' = s.F /\ L' = s.L /\ E' = s.E /\ R' = s.R
     /\ RegEver' = s.RegEver /\ began' = s.began /\ inited' = s.inited /\ openCmd' = s.openCmd /\ defs' = s.defs
@@ -292,7 +321,7 @@ TInit == /\ S = {} /\ D = {} /\ Fl = {} /\ A = {} /\ X = {} /\ F = {} /\ L = {} 
          /\ began = {} /\ inited = {} /\ openCmd = {} /\ defs = {} /\ running = {} /\ justEnded = {} /\ mustRearm = {}
          /\ startAt = {} /\ injPending = {} /\ Dt = {} /\ ms = 0 /\ tick = -1 /\ inTick = FALSE /\ ranTick = FALSE /\ idle = 0
          /\ edits = 0 /\ pendAct = "" /\ p = Fresh.p /\ tainted = FALSE /\ stale = {} /\ calls = {} /\ defsEver = {}
-         /\ tid \in 1..Len(Traces) /\ l = 1 /\ viols = {} /\ done = FALSE
+         /\ tid \in 1..Len(Traces) /\ l = 1 /\ viols = {} /\ done = FALSE /\ seen = {}
 
 Step ==
     /\ l <= Len(T)
@@ -339,8 +368,8 @@ Step ==
                                       !.idle = IF s.ranTick THEN @ ELSE @ + 1,
                                       !.injPending = IF s.ranTick THEN {} ELSE @])
          [] OTHER -> /\ Apply(s) /\ UNCHANGED viols      \* ctl, cf
-    /\ l' = l + 1 /\ UNCHANGED <<tid, done>>
+    /\ l' = l + 1 /\ seen' = seen \cup Witness(T[l]) /\ UNCHANGED <<tid, done>>
 
-Finish == /\ l = Len(T) + 1 /\ ~done /\ done' = TRUE /\ Report(Traces[tid].id, l - 1, viols) /\ UNCHANGED <<mvars, tid, l, viols>>
+Finish == /\ l = Len(T) + 1 /\ ~done /\ done' = TRUE /\ ReportW(Traces[tid].id, l - 1, viols, seen) /\ UNCHANGED <<mvars, seen, tid, l, viols>>
 TSpec == TInit /\ [][Step \/ Finish]_tvars
 =============================================================================
